@@ -9,6 +9,7 @@
 -/
 import Mhd.Proofs.PoolInv
 import Mhd.Proofs.NoSpace
+import Mhd.Proofs.NoSpaceConn
 
 namespace Mhd.C08
 open Mhd.Pool
@@ -70,10 +71,9 @@ example : WF (run (St.init 64) [.alloc 10 false, .alloc 16 true, .realloc (some 
 
 `get_no_space_err_status_code` picks the status of the refusal from the sizes of the request's
 elements; whatever they are, the answer is one of the "too large" codes (501 only when a
-non-standard method token is what makes the request large).  That a refusal happens at all when
-the arena is exhausted is the buffer-layer theorem of C01 (`windows_inside_arena`: the windows never
-leave the arena, so a request that does not fit cannot be stored) together with the daemon-level
-correspondence run of this check (oversized requests × arena sizes). -/
+non-standard method token is what makes the request large).  That the refusal happens — for every
+byte stream, every segmentation, every arena size and every strictness level — and which of the
+codes it is, is `arena_hard_bound` below (composition with C01's `Mhd.ConnRead`). -/
 
 theorem no_space_status_is_too_large (i : Mhd.NoSpace.Input) :
     Mhd.NoSpace.status i = Mhd.Gen.ConnMem.httpContentTooLarge ∨
@@ -94,5 +94,110 @@ def exInput : Mhd.NoSpace.Input :=
   ⟨Mhd.Gen.ConnMem.stageHeaders, 9000, .other, 9000, some 1, 1, false, 0⟩
 
 example : Mhd.NoSpace.status exInput = 431 := by decide
+
+/-- for a standard method: 413 exactly for an over-long chunk-size line, otherwise 431 when the field
+    lines dominate the request target by the code's thresholds (`headersDominate`), else 414 -/
+theorem no_space_status_by_what_fills (i : Mhd.NoSpace.Input) (hm : i.methodOther = false) :
+    Mhd.NoSpace.status i =
+      if i.stage = Mhd.Gen.ConnMem.stageBodyChunked ∧ Mhd.Gen.ConnMem.minReasonableChunkLine < i.addSize
+      then Mhd.Gen.ConnMem.httpContentTooLarge
+      else if Mhd.NoSpace.headersDominate (Mhd.NoSpace.hostSplit i).2 i.uri (Mhd.NoSpace.hostSplit i).1
+      then Mhd.Gen.ConnMem.httpHeaderFieldsTooLarge else Mhd.Gen.ConnMem.httpUriTooLong :=
+  Mhd.NoSpace.status_std_method i hm
+
+theorem no_space_413_iff (i : Mhd.NoSpace.Input) :
+    Mhd.NoSpace.status i = Mhd.Gen.ConnMem.httpContentTooLarge ↔
+      (i.stage = Mhd.Gen.ConnMem.stageBodyChunked ∧ Mhd.Gen.ConnMem.minReasonableChunkLine < i.addSize) :=
+  Mhd.NoSpace.status_413_iff i
+
+/-! ### The hard size bound at connection level (second sentence of the property)
+
+`Mhd.ArenaBound.runT` is C01's composed model `Mhd.ConnRead.run` (request line, header section, body,
+footers, keep-alive reset — all on the ONE arena `cm.p` created with the configured size) observed by a
+trace that records, at the moment the run enters `.error .noSpace`, which refusal the code decides
+(`handle_recv_no_space` / `handle_req_headers_no_space` / `handle_req_footers_no_space` /
+`handle_req_chunk_size_line_no_space` with the inputs of `get_no_space_err_status_code`).  The CR
+component of the traced run *is* `Mhd.ConnRead.run` (first conjunct), so C01's theorems apply to it. -/
+
+open Mhd.ArenaBound Mhd.ConnRead Mhd.ConnMem in
+/-- **For every client byte stream, every segmentation, every arena size / pool size / increment,
+    every strictness level and every application behaviour (`cfg`):**
+    (1) the traced run is `Mhd.ConnRead.run`;
+    (2) no parser access outside the received bytes, no operation the buffer layer refuses;
+    (3) every block the request processing works in — the read buffer (with the request line, the
+        field lines, the body window), the write buffer, and (by `CMInv`) the cursors between which the
+        back-allocated request elements lie — is inside the one arena: `… ≤ pos ≤ end_ ≤ size`; there is no
+        other memory in the model's state, every allocation is an operation on `cm.p`;
+    (4) the connection never waits for data with a full read buffer: what does not fit is not stored;
+    (5) when the request does not fit (`.error .noSpace`: the buffer is full and cannot grow, or a parsed
+        field line finds no room for its element) the refusal has been decided and is a close or one of
+        413 / 414 / 431 (501 only for a non-standard method, `no_space_501_only_for_nonstandard_method`). -/
+theorem arena_hard_bound (cfg : Cfg) (allocSize poolSize inc : Nat) (lvl : Int) (ha : allocSize % A = 0)
+    (hs : allocSize < 2 ^ 62) (hp : poolSize ≤ allocSize) (hp2 : 2 ≤ poolSize) (chunks : List (List UInt8)) :
+    let t := runT cfg (initT allocSize poolSize inc lvl) chunks
+    t.x = Mhd.ConnRead.run cfg (Mhd.ConnRead.init allocSize poolSize inc lvl) chunks ∧
+    ((∀ f, t.x.phase ≠ .fault f) ∧ (∀ n, t.x.phase ≠ .refused n)) ∧
+    (CMInv t.x.cm ∧ WindowsInside t.x.cm) ∧
+    (t.x.wantsRead = true → t.x.cm.rbOff < t.x.cm.rbSize) ∧
+    (t.x.phase = .error .noSpace → ∃ r, t.log = some r ∧ r.Allowed) := by
+  intro t
+  have hx : t.x = Mhd.ConnRead.run cfg (Mhd.ConnRead.init allocSize poolSize inc lvl) chunks :=
+    runT_x cfg chunks (initT allocSize poolSize inc lvl)
+  have hsafe := run_safe inc cfg chunks _ (init_safe allocSize poolSize inc lvl ha hs hp)
+  have f := Mhd.ConnMem.init_fields allocSize poolSize inc ha hs hp
+  have hlive := run_live inc cfg chunks _ (init_safe allocSize poolSize inc lvl ha hs hp)
+    (fun _ => by
+      show (Mhd.ConnMem.init allocSize poolSize inc).rbOff < (Mhd.ConnMem.init allocSize poolSize inc).rbSize
+      rw [f.2.1, f.2.2.2.2.1]; omega)
+  refine ⟨hx, ?_, ?_, ?_, ?_⟩
+  · rw [hx]; exact safe_not_faulty hsafe
+  · rw [hx]; exact ⟨safe_cminv hsafe, Mhd.ConnMem.windows_of_inv _ (safe_cminv hsafe)⟩
+  · rw [hx]; exact hlive
+  · intro hph
+    have hg := runT_good cfg chunks _ (initT_good allocSize poolSize inc lvl)
+    have hl : t.log.isSome = true := hg (by show isNoSpace t.x.phase = true; rw [hph]; rfl)
+    obtain ⟨r, hr⟩ := Option.isSome_iff_exists.mp hl
+    exact ⟨r, hr, runT_allowed cfg chunks _ (by intro r h; simp [initT] at h) r hr⟩
+
+open Mhd.ArenaBound Mhd.ConnRead in
+/-- **which refusal, by the stage and by what fills the buffer** (`handle_recv_no_space`): a full buffer
+    while the request line is received → 414 when the method is one of GET … DELETE, otherwise a close;
+    in the header section → the status `get_no_space_err_status_code` computes for the raw buffer content
+    (`no_space_status_by_what_fills`: 431 or 414 by what dominates); while the chunk-size line is read →
+    413 if it carries an extension; in the footers → 431. -/
+theorem refusal_by_stage (x : CR) (a : Aux) :
+    (∀ s, x.phase = .reqLine s →
+        refusalGrow x a = if s.looksHttp then .status Mhd.Gen.ConnMem.httpUriTooLong else .close) ∧
+    (∀ hs fs, x.phase = .headers hs fs → ∃ i : Mhd.NoSpace.Input,
+        refusalGrow x a = .status (Mhd.NoSpace.status i) ∧ i.stage = Mhd.Gen.ConnMem.stageHeaders ∧
+        i.addSize = x.cm.rbOff ∧ i.optHdr = x.cm.rb.getD 0 + x.cm.rbOff - fs ∧ i.uri = a.uri) ∧
+    (∀ b, x.phase = .body b → b.chunked = true → b.off = b.cur → b.cur = 0 →
+        ((b.buf.extract (x.cm.rb.getD 0) (x.cm.rb.getD 0 + x.cm.rbOff)).toList.contains 59) = true →
+        refusalGrow x a = .status Mhd.Gen.ConnMem.httpContentTooLarge) ∧
+    (∀ s rq, x.phase = .footers s rq → refusalGrow x a = .status Mhd.Gen.ConnMem.httpHeaderFieldsTooLarge) := by
+  refine ⟨?_, ?_, ?_, ?_⟩
+  · intro s h; simp only [refusalGrow, h]
+  · intro hs fs h; exact ⟨_, by simp only [refusalGrow, h]; rfl, rfl, rfl, rfl, rfl⟩
+  · intro b h h1 h2 h3 h4; simp only [refusalGrow, h, h1, h2, h3, h4, and_self, if_true]
+  · intro s rq h; simp only [refusalGrow, h]
+
+/-- the configuration of the examples: framing given directly, keep-alive, the application takes 2 bytes per call -/
+def exCfg (fr : Mhd.ConnRead.Framing) : Mhd.ConnRead.Cfg :=
+  { frame := fun _ _ => fr, keepAlive := fun _ _ => true, take := fun _ _ => 2 }
+
+/-- Non-vacuity of (5): `GET /aaaa…` (200 × `a`) on a 64-byte arena — refused with 414;
+    (`decide +kernel`: the composed model is evaluated by the kernel — a test of the example) -/
+example : (Mhd.ArenaBound.runT (exCfg .none) (Mhd.ArenaBound.initT 64 64 16 0)
+    [[71, 69, 84, 32, 47] ++ List.replicate 200 97]).log = some (.status 414) := by decide +kernel
+
+/-- … the same with a non-standard method token (`BREW /aaaa…`): closed without a reply -/
+example : (Mhd.ArenaBound.runT (exCfg .none) (Mhd.ArenaBound.initT 64 64 16 0)
+    [[66, 82, 69, 87, 32, 47] ++ List.replicate 200 97]).log = some .close := by decide +kernel
+
+/-- … `GET / HTTP/1.1\r\nX: vvvv…` (300 × `v`) in two chunks on a 256-byte arena: 431, and the run is in `.error .noSpace` -/
+def exRun431 : Mhd.ArenaBound.TR := Mhd.ArenaBound.runT (exCfg .none) (Mhd.ArenaBound.initT 256 256 16 0)
+    [[71, 69, 84, 32, 47, 32, 72, 84, 84, 80, 47, 49, 46, 49, 13, 10, 88, 58, 32], List.replicate 300 118]
+example : (exRun431.log, Mhd.ArenaBound.isNoSpace exRun431.x.phase) = (some (Mhd.ArenaBound.Refusal.status 431), true) := by
+  decide +kernel
 
 end Mhd.C08
